@@ -252,9 +252,14 @@ pub struct DerivedNodeRevision {
     pub node_index: Index<DerivedNodeId>,
     pub dependency_index: Index<Dependency>,
 }
-#[verifier::external_body]
+// InnerFn<Db>(pub fn(&Db, DerivedNodeId) -> Option<Box<dyn DynEq>>): the function pointer as a token
 #[verifier::reject_recursive_types(Db)]
-pub struct DerivedNode<Db> { p: core::marker::PhantomData<Db> }
+pub struct InnerFn<Db>(pub u64, pub core::marker::PhantomData<Db>);
+impl<Db> Clone for InnerFn<Db> { fn clone(&self) -> (r: Self) ensures r == *self { InnerFn(self.0, core::marker::PhantomData) } }
+impl<Db> Copy for InnerFn<Db> {}
+// DerivedNode<Db> { inner_fn, value: Box<dyn DynEq> } (R5: the boxed value is opaque)
+#[verifier::reject_recursive_types(Db)]
+pub struct DerivedNode<Db> { pub inner_fn: InnerFn<Db>, pub value: DynBox }
 
 //@item rel=crates/pico/src/database.rs kind=struct name=InternalStorage prefix="#[verifier::reject_recursive_types(Db)] pub" sub="Box<dyn Any>=>AnyBox" sub2="<Db: Database>=><Db>"
 
@@ -416,6 +421,121 @@ impl<Db: Database> Storage<Db> {
         // O-4: a recorded source dependency is stale iff the source is gone or was
         // stamped strictly after the recorded time
         r == (!db.storage_spec().internal.has(key) || db.storage_spec().internal.stamp(key) > since.t()), //@O C01+C02.O-4_source_changed_iff_absent_or_newer
+//@end
+
+// =====================================================================================
+// Derived-node side, READ-ONLY part: when is a recorded derived dependency reported as
+// changed (execute_memoized_function.rs: derived_node_changed_since)
+// =====================================================================================
+// The derived-node half of pico mutates the storage through `&Db` (interior mutability),
+// which no contract here can describe. What CAN be stated are facts about the state at
+// ENTRY of derived_node_changed_since: every read of the revision map in that function
+// precedes the one call that may mutate (the recursive execute_memoized_function), so the
+// spec state below is the state at entry. Sources and the clock do not change while memoized
+// functions run (assert_empty_dependency_stack guards set / remove).
+impl<Db: Database> InternalStorage<Db> {
+    pub open spec fn dhas(&self, id: DerivedNodeId) -> bool { self.derived_node_id_to_revision@.contains_key(id) }
+    pub open spec fn drev(&self, id: DerivedNodeId) -> DerivedNodeRevision { self.derived_node_id_to_revision@[id] }
+    pub open spec fn ddeps(&self, id: DerivedNodeId) -> Seq<Dependency> { self.derived_node_dependencies@[self.drev(id).dependency_index.idx as int]@ }
+    /// every revision points at a stored node and a stored dependency list ("indexes should
+    /// always be valid": the expects below)
+    pub open spec fn dwf(&self) -> bool {
+        forall|id: DerivedNodeId| #[trigger] self.dhas(id) ==>
+            self.drev(id).node_index.idx < self.derived_nodes@.len()
+            && self.drev(id).dependency_index.idx < self.derived_node_dependencies@.len()
+    }
+
+//@fn rel=crates/pico/src/database.rs name=get_derived_node_from_derived_node_revision within="impl<Db: Database> InternalStorage<Db>" vis=pub ret=r serves=C01
+//@rw R2
+//@contract
+        requires revision.node_index.idx < self.derived_nodes@.len(),
+        ensures *r == self.derived_nodes@[revision.node_index.idx as int],
+//@end
+//@fn rel=crates/pico/src/database.rs name=get_derived_node_and_revision within="impl<Db: Database> InternalStorage<Db>" vis=pub ret=r serves=C01
+//@rw R4
+//@contract
+        requires self.dwf(),
+        ensures
+            (r is Some) == self.dhas(derived_node_id),
+            r is Some ==> r->Some_0.1 == self.drev(derived_node_id)
+                && *r->Some_0.0 == self.derived_nodes@[self.drev(derived_node_id).node_index.idx as int],
+//@before "let node ="
+        proof { assert(self.dhas(derived_node_id)); }
+//@end
+//@fn rel=crates/pico/src/database.rs name=get_derived_node within="impl<Db: Database> InternalStorage<Db>" vis=pub ret=r serves=C01
+//@sub "\.map\(\|\(node, _\)\| node\)" => ".map(|p: (&DerivedNode<Db>, DerivedNodeRevision)| -> (n: &DerivedNode<Db>) ensures n == p.0 { p.0 })" n=1
+//@contract
+        requires self.dwf(),
+        ensures (r is Some) == self.dhas(derived_node_id),
+            r is Some ==> *r->Some_0 == self.derived_nodes@[self.drev(derived_node_id).node_index.idx as int],
+//@end
+//@fn rel=crates/pico/src/database.rs name=get_dependencies within="impl<Db: Database> InternalStorage<Db>" vis=pub ret=r serves=C01
+//@contract
+        requires self.dwf(),
+        ensures (r is Some) == self.dhas(derived_node_id),
+            r is Some ==> r->Some_0@ == self.ddeps(derived_node_id),
+//@end
+//@fn rel=crates/pico/src/database.rs name=get_derived_node_revision within="impl<Db: Database> InternalStorage<Db>" vis=pub ret=r serves=C01
+//@contract
+        ensures (r is Some) == self.dhas(derived_node_id), r is Some ==> r->Some_0 == self.drev(derived_node_id),
+//@closure 1 params="rev: &DerivedNodeRevision" ret="v: DerivedNodeRevision"
+            ensures v == *rev,
+//@end
+}
+
+//@item rel=crates/pico/src/execute_memoized_function.rs kind=enum name=DidRecalculate prefix="pub"
+/// execute_memoized_function: NO contract (it re-executes functions and mutates the storage
+/// behind `&Db`); whatever it returns is possible here
+#[verifier::external_body]
+pub fn execute_memoized_function<Db: Database>(db: &Db, derived_node_id: DerivedNodeId, inner_fn: InnerFn<Db>) -> DidRecalculate { unimplemented!() }
+
+//@fn rel=crates/pico/src/execute_memoized_function.rs name=derived_node_changed_since vis=pub ret=r serves=C01,C02
+//@rw R2
+//@contract
+    requires db.storage_spec().internal.dwf(),
+    ensures
+        // a dependency whose result was discarded by garbage collection counts as changed
+        !db.storage_spec().internal.dhas(derived_node_id) ==> r, //@O C01.O-5_collected_dependency_counts_as_changed
+        // C01: a dependency whose value was updated AFTER the parent recorded it is reported
+        // as changed, whatever else is known about it (e.g. that it was verified this epoch)
+        db.storage_spec().internal.dhas(derived_node_id)
+            && db.storage_spec().internal.drev(derived_node_id).time_updated.t() > since.t() ==> r, //@O C01.O-5_dependency_updated_after_it_was_recorded_is_reported_changed
+        // C02: an interned value (no dependencies) that was not updated is never re-run
+        db.storage_spec().internal.dhas(derived_node_id)
+            && db.storage_spec().internal.drev(derived_node_id).time_updated.t() <= since.t()
+            && db.storage_spec().internal.ddeps(derived_node_id).len() == 0 ==> !r, //@O C02.O-5_unchanged_interned_value_is_not_reexecuted
+//@end
+
+/// a source dependency recorded at time t is stale: the source is gone or was stamped after t
+pub open spec fn stale_source_dep<Db: Database>(s: &InternalStorage<Db>, dep: Dependency) -> bool {
+    dep.node_to is Source && (!s.has(dep.node_to->Source_0) || s.stamp(dep.node_to->Source_0) > dep.time_verified_or_updated.t())
+}
+//@fn rel=crates/pico/src/execute_memoized_function.rs name=any_dependency_changed vis=pub ret=r serves=C01,C02
+//@rw R2 R20
+//@contract
+    requires
+        db.storage_spec().internal.wf(), db.storage_spec().internal.dwf(),
+        // the caller has just looked the node up (expect("Expected dependencies to be present"))
+        db.storage_spec().internal.dhas(derived_node_id),
+    ensures
+        // C01: a dependency on a source that changed since it was recorded (and was not
+        // re-recorded in this epoch) forces re-execution
+        forall|j: int| 0 <= j < db.storage_spec().internal.ddeps(derived_node_id).len()
+            && (#[trigger] db.storage_spec().internal.ddeps(derived_node_id)[j]).time_verified_or_updated != db.storage_spec().internal.current_epoch
+            && stale_source_dep(&db.storage_spec().internal, db.storage_spec().internal.ddeps(derived_node_id)[j]) ==> r, //@O C01.O-5_changed_source_dependency_forces_reexecution
+        // C02: if every dependency was recorded in the current epoch nothing is re-examined
+        (forall|j: int| 0 <= j < db.storage_spec().internal.ddeps(derived_node_id).len() ==>
+            (#[trigger] db.storage_spec().internal.ddeps(derived_node_id)[j]).time_verified_or_updated == db.storage_spec().internal.current_epoch) ==> !r, //@O C02.O-5_dependencies_recorded_this_epoch_are_not_reexamined
+//@loop 1
+        invariant
+            db.storage_spec().internal.wf(), db.storage_spec().internal.dwf(),
+            any_it.seq().len() == dependencies@.len(),
+            forall|k: int| 0 <= k < any_it.seq().len() ==> *(#[trigger] any_it.seq()[k]) == dependencies@[k],
+            dependencies@ == db.storage_spec().internal.ddeps(derived_node_id),
+            forall|j: int| 0 <= j < any_it.index@
+                && (#[trigger] dependencies@[j]).time_verified_or_updated != db.storage_spec().internal.current_epoch
+                && stale_source_dep(&db.storage_spec().internal, dependencies@[j]) ==> any_found,
+            any_found ==> exists|j: int| 0 <= j < any_it.index@ && (#[trigger] dependencies@[j]).time_verified_or_updated != db.storage_spec().internal.current_epoch,
 //@end
 
 } // verus!
